@@ -35,10 +35,42 @@ def _find_method(tree, cls, name):
 OPS = {ast.Add: '+', ast.Sub: '-', ast.Mult: '*', ast.Div: '/'}
 
 
+def _bin(op, a, b):
+    """a, b: Lean expression strings, or {'x': .., 'y': ..} for a two-component vector (componentwise, scalars broadcast)"""
+    if isinstance(a, dict) or isinstance(b, dict):
+        ax = a if isinstance(a, dict) else {'x': a, 'y': a}
+        bx = b if isinstance(b, dict) else {'x': b, 'y': b}
+        return {c: '(%s %s %s)' % (ax[c], op, bx[c]) for c in ('x', 'y')}
+    return '(%s %s %s)' % (a, op, b)
+
+
+class MeanObj:
+    """a symbolic `Mean` instance: value expression (scalar or vector pair) and count expression; what `accumulate(x)` does to
+    it is taken from the translated body of the source's own Mean._accumulate_obj"""
+    def __init__(self, val, n, nat):
+        self.val, self.n, self.nat = val, n, nat      # nat: the Lean Nat term of the count (for the statement)
+
+
 class Sym:
     """symbolic execution of a straight-line body: names/attributes -> Lean expression strings"""
-    def __init__(self, env):
+    def __init__(self, env, objs=None, tree=None):
         self.env = dict(env)
+        self.objs = dict(objs or {})
+        self.tree = tree
+
+    def mean_push(self, o, x):
+        """the new (val, n) of symbolic Mean `o` after accumulate(x), by running Mean._accumulate_obj of the source"""
+        f = _find_method(self.tree, 'Mean', '_accumulate_obj')
+        comps = ('x', 'y') if isinstance(o.val, dict) or isinstance(x, dict) else (None,)
+        res = {}
+        for c in comps:
+            pick = lambda v: v[c] if isinstance(v, dict) else v     # noqa
+            s = Sym({'self._n': o.n, 'self._val': pick(o.val), 'obj': pick(x)})
+            s.run(f.body)
+            res[c] = (s.env['self._val'], s.env['self._n'])
+        n_new = res[comps[0]][1]
+        val = res[None][0] if comps == (None,) else {c: res[c][0] for c in comps}
+        return MeanObj(val, n_new, o.nat)
 
     def key(self, node):
         if isinstance(node, ast.Name):
@@ -56,9 +88,34 @@ class Sym:
                 raise Untranslatable('power')
             if type(node.op) not in OPS:
                 raise Untranslatable('operator %s' % type(node.op).__name__)
-            return '(%s %s %s)' % (self.expr(node.left), OPS[type(node.op)], self.expr(node.right))
+            return _bin(OPS[type(node.op)], self.expr(node.left), self.expr(node.right))
         if isinstance(node, ast.UnaryOp) and isinstance(node.op, ast.USub):
-            return '(-%s)' % self.expr(node.operand)
+            v = self.expr(node.operand)
+            if isinstance(v, dict):
+                raise Untranslatable('negated vector')
+            return '(-%s)' % v
+        if isinstance(node, ast.Call) and isinstance(node.func, ast.Attribute) and node.func.attr == 'outer' and len(node.args) == 2:
+            a, b = self.expr(node.args[0]), self.expr(node.args[1])
+            if not (isinstance(a, dict) and isinstance(b, dict)):
+                raise Untranslatable('outer of non-vectors')
+            return '(%s * %s)' % (a['x'], b['y'])           # the (x, y) entry of the outer product
+        if isinstance(node, ast.Attribute) and isinstance(node.value, (ast.Name, ast.Attribute)):
+            try:
+                ok = self.key(node.value)
+            except Untranslatable:
+                ok = None
+            if ok in self.objs:
+                o = self.objs[ok]
+                if node.attr in ('value', '_val'):
+                    return o.val
+                if node.attr in ('n', '_n'):
+                    return o.n
+                if node.attr == 'sum':
+                    f = _find_method(self.tree, 'Mean', 'sum')
+                    if isinstance(o.val, dict):
+                        raise Untranslatable('sum of a vector mean')
+                    return Sym({'self._val': o.val, 'self.n': o.n, 'self._n': o.n}).run(f.body)
+                raise Untranslatable('attribute %s of a Mean' % node.attr)
         if isinstance(node, ast.Constant) and isinstance(node.value, (int, float)) and not isinstance(node.value, bool):
             v = node.value
             if float(v) == int(v):
@@ -102,7 +159,16 @@ class Sym:
                 k = self.key(st.target)
                 if type(st.op) not in OPS:
                     raise Untranslatable('augmented operator')
-                self.env[k] = '(%s %s %s)' % (self.expr(st.target), OPS[type(st.op)], self.expr(st.value))
+                if k in self.objs:
+                    if not isinstance(st.op, ast.Add):
+                        raise Untranslatable('augmented operator on an accumulator')
+                    self.objs[k] = self.mean_push(self.objs[k], self.expr(st.value))      # acc += obj  is  acc.accumulate(obj)
+                else:
+                    self.env[k] = _bin(OPS[type(st.op)], self.expr(st.target), self.expr(st.value))
+            elif isinstance(st, ast.Expr) and isinstance(st.value, ast.Call) and isinstance(st.value.func, ast.Attribute) \
+                    and st.value.func.attr == 'accumulate' and len(st.value.args) == 1 and self.key(st.value.func.value) in self.objs:
+                k = self.key(st.value.func.value)
+                self.objs[k] = self.mean_push(self.objs[k], self.expr(st.value.args[0]))
             elif isinstance(st, ast.Return):
                 return self.expr(st.value) if st.value is not None else None
             elif isinstance(st, ast.If):
@@ -203,6 +269,73 @@ def translate(tree):
                 '    rw [if_neg h]; rfl\n'
                 '  rw [e]; push_cast; ring' % nv)
     attempt('Variance._accumulate_other', varmerge)
+
+    def varpush():
+        f = _find_method(tree, 'Variance', '_accumulate_obj')
+        s = Sym({'obj': 'x'}, {'self.mean': MeanObj('mv', '(n : K)', 'n'), 'self.var': MeanObj('vv', '(n : K)', 'n')}, tree)
+        s.run(f.body)
+        m, v = s.objs['self.mean'], s.objs['self.var']
+        return ('theorem src_variance_push (mv vv x : K) (n : Nat) :\n'
+                '    %s = (Variance.push ⟨⟨mv, n⟩, ⟨vv, n⟩⟩ x).mean.val ∧\n    %s = (Variance.push ⟨⟨mv, n⟩, ⟨vv, n⟩⟩ x).var.val := by\n'
+                '  simp only [Variance.push, Mean.push]; push_cast; constructor <;> ring' % (m.val, v.val))
+    attempt('Variance._accumulate_obj', varpush)
+
+    def varvalue():
+        f = _find_method(tree, 'Variance', 'value')
+        s = Sym({'self.n': '(n : K)'}, {'self.var': MeanObj('vv', '(n : K)', 'n')}, tree)
+        e = s.run(f.body)
+        return ('theorem src_variance_value (mv vv : K) (n : Nat) (h : n ≠ 1) :\n'
+                '    Variance.value ⟨⟨mv, n⟩, ⟨vv, n⟩⟩ = .ok %s := by\n'
+                '  simp only [Variance.value, Variance.n, if_neg h, Nat.cast_one]' % e)
+    attempt('Variance.value', varvalue)
+
+    def meansum():
+        f = _find_method(tree, 'Mean', 'sum')
+        e = Sym({'self._val': 'v', 'self.n': '(n : K)', 'self._n': '(n : K)'}).run(f.body)
+        return ('theorem src_mean_sum (v : K) (n : Nat) :\n    %s = Mean.sum ⟨v, n⟩ := by\n  simp only [Mean.sum]' % e)
+    attempt('Mean.sum', meansum)
+
+    def covpush():
+        f = _find_method(tree, 'Covariance', '_accumulate_obj')
+        s = Sym({'obj': {'x': 'x', 'y': 'y'}},
+                {'self.mean': MeanObj({'x': 'mx', 'y': 'my'}, '(n : K)', 'n'), 'self._cov': MeanObj('cv', '(n : K)', 'n')}, tree)
+        s.run(f.body)
+        m, cv = s.objs['self.mean'], s.objs['self._cov']
+        return ('theorem src_covariance_push (mx my cv x y : K) (n : Nat) :\n'
+                '    %s = (Cov2.push ⟨⟨mx, n⟩, ⟨my, n⟩, ⟨cv, n⟩⟩ x y).mx.val ∧\n    %s = (Cov2.push ⟨⟨mx, n⟩, ⟨my, n⟩, ⟨cv, n⟩⟩ x y).my.val ∧\n'
+                '    %s = (Cov2.push ⟨⟨mx, n⟩, ⟨my, n⟩, ⟨cv, n⟩⟩ x y).c.val := by\n'
+                '  simp only [Cov2.push, Mean.push]; push_cast; refine ⟨?_, ?_, ?_⟩ <;> ring' % (m.val['x'], m.val['y'], cv.val))
+    attempt('Covariance._accumulate_obj', covpush)
+
+    def covmerge():
+        f = _find_method(tree, 'Covariance', '_accumulate_other')
+        s = Sym({'self.n': '(n : K)', 'other.n': '(m : K)'},
+                {'self.mean': MeanObj({'x': 'a1', 'y': 'a2'}, '(n : K)', 'n'), 'other.mean': MeanObj({'x': 'b1', 'y': 'b2'}, '(m : K)', 'm'),
+                 'self._cov': MeanObj('ca', '(n : K)', 'n'), 'other._cov': MeanObj('cb', '(m : K)', 'm')}, tree)
+        for st in f.body:
+            if isinstance(st, ast.Assign) and isinstance(st.targets[0], ast.Name) and st.targets[0].id in ('dmean', 'newn', 'newvar'):
+                s.run([st])
+        nv = s.env.get('newvar')
+        if nv is None or isinstance(nv, dict):
+            raise Untranslatable('no newvar')
+        return ('theorem src_covariance_merge (a1 a2 b1 b2 ca cb : K) (n m : Nat) (h : n + m ≠ 0) :\n'
+                '    %s / ((n : K) + (m : K)) = (Cov2.merge ⟨⟨a1, n⟩, ⟨a2, n⟩, ⟨ca, n⟩⟩ ⟨⟨b1, m⟩, ⟨b2, m⟩, ⟨cb, m⟩⟩).c.val := by\n'
+                '  have e : (Cov2.merge ⟨⟨a1, n⟩, ⟨a2, n⟩, ⟨ca, n⟩⟩ ⟨⟨b1, m⟩, ⟨b2, m⟩, ⟨cb, m⟩⟩ : Cov2 K).c.val\n'
+                '      = (ca * (n : K) + cb * (m : K) + (a1 - b1) * (a2 - b2) * (n : K) * (m : K) / ((n + m : Nat) : K)) / ((n + m : Nat) : K) := by\n'
+                '    unfold Cov2.merge\n'
+                '    show (if n + m = 0 then _ else _ : Cov2 K).c.val = _\n'
+                '    rw [if_neg h]; rfl\n'
+                '  rw [e]; push_cast; ring' % nv)
+    attempt('Covariance._accumulate_other', covmerge)
+
+    def covvalue():
+        f = _find_method(tree, 'Covariance', 'value')
+        s = Sym({'self.n': '(n : K)'}, {'self._cov': MeanObj('cv', '(n : K)', 'n')}, tree)
+        e = s.run(f.body)
+        return ('theorem src_covariance_value (mx my cv : K) (n : Nat) (h : n ≠ 1) :\n'
+                '    Cov2.value ⟨⟨mx, n⟩, ⟨my, n⟩, ⟨cv, n⟩⟩ = .ok %s := by\n'
+                '  simp only [Cov2.value, if_neg h, Nat.cast_one]' % e)
+    attempt('Covariance.value', covvalue)
     return out
 
 
